@@ -31,7 +31,7 @@ static const char *QTN[7] = { "NULL", "PRIVATE", "TXT", "SRV", "MX", "CNAME", "A
 enum { K_LETTERS, K_QUERIES, K_ANSWERS, K_DUPS, K_CACHE_EXPECTED, K_CACHE_SAME, K_POS_CHECKS, K_MAXPEND, K_TUNW, K_DATA_ANS, K_HELD2, K_SAN = 20 };
 
 /* ---------------------------------------------------------------- alphabet */
-enum { L_PING, L_DATA_FIRST, L_DATA_LAST, L_DUP, L_TUN, L_TIME, L_RAWLOGIN, L_LAZY, L_SETFRAG, L_RELOGIN, L_RAWPING, L_RAWDATA, L_HSDUP };
+enum { L_PING, L_DATA_FIRST, L_DATA_LAST, L_DUP, L_TUN, L_TIME, L_RAWLOGIN, L_LAZY, L_SETFRAG, L_RELOGIN, L_RAWPING, L_RAWDATA, L_HSDUP, L_NSA };
 enum { V_SAME, V_NEWID, V_NEWSRC, V_UPPER, V_OTHERTYPE };
 typedef struct letter { int kind, a, b; char name[40]; } letter;
 static letter LT[128]; static int nlt, nlt_all;      /* letters [nlt, nlt_all) are used by warm-ups only */
@@ -101,6 +101,9 @@ static void mk_alphabet(void)
 	/* a fragment-size request in mid-session (a relay re-delivering the handshake's, or a client re-probing): the server
 	 * deliberately empties its answer cache then, and nothing else */
 	addl(L_SETFRAG, 100, 0, "N(100)");
+	/* what a resolver asks after the server's NS answer: the address of ns.<domain> (and www.<domain>), from a third party.
+	 * One query, at most one answer (seeded C14-j: the special case falling through into the tunnel request handler) */
+	if (is14 || is10) { addl(L_NSA, 0, 0, "A?(ns.<domain>)"); addl(L_NSA, 1, 0, "A?(www.<domain>)"); }
 	nlt_all = nlt;
 }
 
@@ -420,6 +423,14 @@ static int apply(int li)
 		for (int i = 0; i < NPEND; i++) M.pending[i].used = 0;
 		adv_clear();
 		do_settle = 0;
+		break;
+	}
+	case L_NSA: {
+		char nm[300]; uint8_t wire[300];
+		int l = snprintf(nm, sizeof nm, "%s.%s", L->a ? "www" : "ns", DOM);
+		int wl = rd_dotted_to_wire(nm, l, wire, sizeof wire);
+		plen = rd_mkquery(pkt, sizeof pkt, ++M.idseq, wire, wl, 1, 0);
+		send_q(&SRC_A2, pkt, plen);
 		break;
 	}
 	case L_HSDUP:
